@@ -159,6 +159,9 @@ def run(w: World, rep: Report):
     depend(rep, w, 'rules_c19', ('C19.R3', 'C19.R4'), 'C16.TD19',
            'the thresholds a run uses are those configured for that run: no run writes into a shared default or into the '
            'embedder\'s dictionaries, so earlier runs cannot pin stale thresholds (C19.R3/R4 re-evaluated)', floor=20)
+    depend(rep, w, 'rules_c09', ('C09.R2', 'C09.R3'), 'C16.TD9',
+           'the clock thresholds (flags) configured for a run hold inside DEF/CALL, IF, TRY and LOOP bodies too - the time '
+           'checks of these locks run inside such bodies (C09.R2/R3 re-evaluated)', floor=16)
     rep.explanation = (
         'The property touches its values only through comparisons, so the set of orderings is finite: the '
         'if/elif/else formula of each instruction is extracted from the CFG (locals substituted by their '
